@@ -6,6 +6,7 @@ in the self-pipe read); k is a solver variable over [0, L) with L measured on
 the same path without a fault, so every point is visited; graph, par bits, jobs,
 which children fail and the completion order stay solver variables along it.
 """
+import gc
 import os
 import signal
 import sys
@@ -22,11 +23,16 @@ RULE = ("one case = (graph, par bits, jobs, failing children, completion order, 
 TRUSTED = ["z3 (only prunes here: k and the scenario are finite choices)", "fake kernel contract (DESIGN 4)",
            "line granularity: CPython runs Python-level signal handlers between bytecodes; injection is before a line executes"]
 ASSUMPTIONS = ["signals arriving inside library code (between fork and the return of Popen()) and at bytecode granularity are outside the claim",
-               "frames of finalisers (__del__) are injection points: CPython runs handlers there and discards what they raise"]
+               "frames of finalisers (__del__) are injection points: CPython runs handlers there and discards what they raise",
+               "`except X:` header lines reached by an exception in flight are not injection points (no call, back-edge or function entry: "
+               "CPython cannot run a handler there); the loop of prevent_module_caching over sys.modules counts for two iterations",
+               "the run with the fault follows the completion order of the fault-free run of the same path; the fault index ranges one block "
+               "beyond the measured length and a fault firing there makes the check inconclusive"]
 
 import conductor as _c
 SRC = os.path.dirname(os.path.realpath(_c.__file__)) + os.sep
 _LCACHE = {}
+_RUNS = [0]
 
 
 MAJOR = ("RunTaskExecutable.start_execution", "RunTaskExecutable.finish_execution", "CombineOutputs.start_execution",
@@ -187,7 +193,19 @@ def run_once(g, specs, root, jobs, bad, inj, calls, stop_early=False, replay=Non
             return cli_run.main(ns)
         finally:
             sys.settrace(old)
-    res = hrun.invoke(traced, ns, str(proj.root), kernel)
+    # Finalisers of garbage left by EARLIER runs (aborted runs leave cycles through tracebacks) must not run inside this
+    # run: their lines would be counted as points of it, at places that depend on the allocator.  Collect outside, and keep
+    # the cycle collector off while the run is traced (objects of this run are still finalised by reference counting).
+    _RUNS[0] += 1
+    if _RUNS[0] % 8 == 0:
+        gc.collect()
+    was = gc.isenabled()
+    gc.disable()
+    try:
+        res = hrun.invoke(traced, ns, str(proj.root), kernel)
+    finally:
+        if was:
+            gc.enable()
     res.proj = proj
     res.sched = sched
     return res
